@@ -34,6 +34,7 @@ type cEvent struct {
 	Member  bool             `json:"go_member"`
 	Raw     *obs.Obs         `json:"raw,omitempty"`
 	Len     int              `json:"len"`
+	Shape   string           `json:"shape"`
 }
 
 func stdConfig(fmtName string, data []byte) (int, int, error) {
@@ -123,8 +124,11 @@ func containersCmd(args []string) error {
 				if onlyLoader != "" && loader != onlyLoader {
 					continue
 				}
-				o := obs.Run(loader, obs.NewSource(b.Data, -1, nil, obs.Full), false, false)
-				ev := cEvent{ID: id, Variant: v, Fmt: c.Fmt, Loader: loader, File: c.FileRaw, Len: len(b.Data)}
+				// the source presents itself as a bare reader, or the way *bytes.Reader / *os.File do
+				// (at offset 0, or embedded after foreign bytes): the outcome may not depend on it
+				shape := []string{"plain", "rich0", "rich5"}[(id+v)%3]
+				o := obs.Run(loader, obs.NewSource(b.Data, -1, nil, obs.Full).WithShape(shape), false, false)
+				ev := cEvent{ID: id, Variant: v, Fmt: c.Fmt, Loader: loader, File: c.FileRaw, Len: len(b.Data), Shape: shape}
 				ev.Obs = concrete.Project(c, v, &o)
 				if o.Panic != "" {
 					ev.Obs.ICC = json.RawMessage(`["panic"]`)
